@@ -17,6 +17,7 @@ import (
 	"os"
 	"os/exec"
 	"path/filepath"
+	"regexp"
 	"sort"
 	"strconv"
 	"strings"
@@ -55,6 +56,58 @@ type wfWant struct {
 	MinRom int `json:"minrom"`
 	NBonds int `json:"nbonds"` // -1: no demand
 	NSo    int `json:"nso"`    // -1: no demand
+	// per processor, in cpdef order: the registers, inputs and outputs its code mentions (empty: no demand)
+	MinRegs []int `json:"minregs"`
+	MinIns  []int `json:"minins"`
+	MinOuts []int `json:"minouts"`
+}
+
+var (
+	reSection = regexp.MustCompile(`(?ms)^%section\s+(\w+)\s+\.(romtext|ramtext)[^\n]*\n(.*?)^%endsection`)
+	reMacro   = regexp.MustCompile(`(?ms)^%macro\s+(\w+)[^\n]*\n(.*?)^%endmacro`)
+	reCpdef   = regexp.MustCompile(`(?m)^%meta\s+cpdef\s+\w+\s+(.*)$`)
+	reCodeRef = regexp.MustCompile(`\b(?:romcode|ramcode)\s*:\s*(\w+)`)
+)
+
+// basmDemands reads from a .basm source what the code of every processor (in cpdef order) mentions:
+// the highest register, input and output index plus one, over its ROM and RAM code sections and the
+// macros they call.  Sources with fragments leave the numbering to the assembler: no demand.
+func basmDemands(src string) (regs, ins, outs []int) {
+	regs, ins, outs = []int{}, []int{}, []int{}
+	if strings.Contains(src, "%fragment") {
+		return
+	}
+	macros := map[string]string{}
+	for _, m := range reMacro.FindAllStringSubmatch(src, -1) {
+		macros[m[1]] = m[2]
+	}
+	sections := map[string]string{}
+	for _, m := range reSection.FindAllStringSubmatch(src, -1) {
+		body := m[3]
+		for _, line := range strings.Split(m[3], "\n") {
+			if f := strings.Fields(line); len(f) > 0 {
+				body += macros[f[0]]
+			}
+		}
+		sections[m[1]] = body
+	}
+	count := func(text, letter string) int {
+		max := -1
+		for _, m := range regexp.MustCompile(`\b`+letter+`([0-9]+)\b`).FindAllStringSubmatch(text, -1) {
+			if n, _ := strconv.Atoi(m[1]); n > max {
+				max = n
+			}
+		}
+		return max + 1
+	}
+	for _, c := range reCpdef.FindAllStringSubmatch(src, -1) {
+		text := ""
+		for _, ref := range reCodeRef.FindAllStringSubmatch(c[1], -1) {
+			text += sections[ref[1]]
+		}
+		regs, ins, outs = append(regs, count(text, "r")), append(ins, count(text, "i")), append(outs, count(text, "o"))
+	}
+	return
 }
 
 type wfMachine struct {
@@ -250,6 +303,18 @@ func shapeText(s shapeRow) (src string, want *topoState) {
 		fmt.Fprintf(&sb2, "%%meta bmdef global registersize:%d\n", s.RSize)
 		return sb2.String(), nil
 	}
+	if s.Kind == "dynops" {
+		fp := fmt.Sprintf("fps%df4", s.RSize)
+		mid := map[string][]string{
+			"rsets4":            {"\trsets4 r1, 5", "\tadd r0, r1"},
+			"rsets4+sub":        {"\trsets4 r1, 5", "\tadd r0, r1", "\tsub r0, r1"},
+			"addfps":            {"\trset r1, 5", "\tadd" + fp + " r0, r1"},
+			"addfps+rsets4+sub": {"\trsets4 r1, 5", "\tadd" + fp + " r0, r1", "\tsub r0, r1"},
+			"multfps+sub":       {"\trset r1, 5", "\tmult" + fp + " r0, r1", "\tsub r0, r1"},
+			"divfps+rsets4+sub": {"\trsets4 r1, 5", "\tdiv" + fp + " r0, r1", "\tsub r0, r1"},
+		}[s.What]
+		code = append(append([]string{"\tclr r0"}, mid...), "\tr2o r0, o0", "\tj _start")
+	}
 	if s.CpuIn {
 		code[0] = "\ti2r r0, i0"
 	}
@@ -279,6 +344,12 @@ func shapeText(s shapeRow) (src string, want *topoState) {
 				sb.WriteString("\tclr r3\n")
 			case "j":
 				sb.WriteString("\tj _rstart\n")
+			case "in1":
+				sb.WriteString("\ti2r r1, i1\n")
+			case "out1":
+				sb.WriteString("\tr2o r1, o1\n")
+			case "inc5":
+				sb.WriteString("\tinc r5\n")
 			}
 		}
 		sb.WriteString("%endsection\n")
@@ -407,6 +478,10 @@ func runC16(r *evid.Run) {
 		emitted++
 		perKind[kind]++
 		origins = append(origins, origin{kind, src, extra})
+		want.MinRegs, want.MinIns, want.MinOuts = []int{}, []int{}, []int{}
+		if kind == "basm-program" || strings.HasPrefix(kind, "shape:") {
+			want.MinRegs, want.MinIns, want.MinOuts = basmDemands(src)
+		}
 		lenc.Encode(wfRecord(len(origins), bm, want))
 		actual := readTopo(bm)
 		if topo == nil {
@@ -669,6 +744,20 @@ func runC16(r *evid.Run) {
 			emit("bondgo-linked-goroutines", src, bm, wfWant{NProcs: 2, NBonds: 4 + workerExtra, NSo: -1}, nil, nil)
 		}
 	}
+	// memory variables (not registers) in one scope and in nested blocks that release and re-use cells
+	for _, gs := range goBlockSources() {
+		res := runBondgo(bin, filepath.Join(scratch, "cc"), gs[1], 8, "", 20*time.Second)
+		if res.status != "ok" || len(res.bmJSON) == 0 {
+			r.Violate("rejected:bondgo-memory-variables", fmt.Sprintf("bondgo fails on a program with %s: %s", gs[0], tailStr(res.out, 300)), map[string]interface{}{"source": gs[1]})
+			continue
+		}
+		bm, err := loadMachine(res.bmJSON)
+		if err != nil {
+			r.Violate("bondgo-json", fmt.Sprintf("bondgo emitted a machine file that cannot be loaded: %v", err), map[string]interface{}{"source": gs[1]})
+			continue
+		}
+		emit("bondgo-memory-variables", gs[1], bm, wfWant{NProcs: 1, NBonds: 2, NSo: -1}, nil, gs[0])
+	}
 	lf.Close()
 	tf.Close()
 
@@ -724,6 +813,35 @@ func runC16(r *evid.Run) {
 	r.Set("misfit_sources_emitted", misfitEmitted)
 	r.Set("evaluations", emitted)
 	_ = tlaval.Int
+}
+
+// goBlockSources: programs whose variables live in memory cells (no reg_ prefix), declared in one
+// scope or in bare nested blocks with every combination of 1..4 locals in the first block and 1..2 in
+// the second (the second block re-uses the cells the first one released).
+func goBlockSources() [][2]string {
+	head := "package main\n\nimport \"bondgo\"\n\nfunc main() {\n\tvar in0 bondgo.Input\n\tvar out0 bondgo.Output\n\tin0 = bondgo.Make(bondgo.Input, 3)\n\tout0 = bondgo.Make(bondgo.Output, 5)\n\tvar a uint8\n"
+	out := [][2]string{{"three memory variables in one scope", head + "\tvar x uint8\n\tvar y uint8\n\tfor {\n\t\ta = bondgo.IORead(in0)\n\t\tx = a + 1\n\t\ty = x + a\n\t\tbondgo.IOWrite(out0, y)\n\t}\n}\n"}}
+	block := func(names []string) string {
+		var sb strings.Builder
+		sb.WriteString("\t\t{\n")
+		for _, n := range names {
+			sb.WriteString("\t\t\tvar " + n + " uint8\n")
+		}
+		prev := "a"
+		for _, n := range names {
+			sb.WriteString("\t\t\t" + n + " = " + prev + " + 1\n")
+			prev = n
+		}
+		sb.WriteString("\t\t\tbondgo.IOWrite(out0, " + prev + ")\n\t\t}\n")
+		return sb.String()
+	}
+	for first := 1; first <= 4; first++ {
+		for second := 1; second <= 2; second++ {
+			out = append(out, [2]string{fmt.Sprintf("a block of %d memory variables followed by a block of %d", first, second),
+				head + "\tfor {\n\t\ta = bondgo.IORead(in0)\n" + block([]string{"x", "y", "u", "v"}[:first]) + block([]string{"z", "w"}[:second]) + "\t}\n}\n"})
+		}
+	}
+	return out
 }
 
 // goLinked is a Go source with main and a worker goroutine on their own processors, joined by a
